@@ -18,7 +18,7 @@ func init() {
 			"returned by the read path derive from Decrypt's result and a Decrypt error returns no data; the encryptor is AES-GCM (cipher.NewGCM over aes.NewCipher) with the " +
 			"nonce prepended on Seal, taken from the prefix on Open after a length check; the nonce is filled by io.ReadFull (error checked) from crypto/rand.Reader; the DSN " +
 			"values on/aesgcm append the encryption option with the DSN or environment key, an empty key is an error, and an option error aborts Open.",
-		NotDecided: "absence of plaintext fragments in files (a cryptographic property of AES-GCM), key/file-name binding, wrong-key behaviour beyond GCM authentication.",
+		NotDecided: "absence of plaintext fragments in files (a cryptographic property of AES-GCM); roll-back of a file to an older version of itself; wrong-key behaviour beyond GCM authentication. (That a file moved between keys is rejected is decided one layer up: C17.6.)",
 		Rules: []Rule{
 			{ID: "C17.1", Desc: "encrypt before write", Run: ruleC17_1, MinSites: 1},
 			{ID: "C17.2", Desc: "decrypt before return, fail closed", Run: ruleC17_2, MinSites: 1},
